@@ -12,7 +12,7 @@ RULE = ("random histories interleaving execution-layer withdraw / fee-update / c
 def run(tier, seed, work):
     quick = tier == "quick"
     mc = [("MC_Bridge.tla", "MC_Bridge_withdrawals.cfg" if quick else "MC_Bridge_withdrawals_thorough.cfg")]
-    per, depth, nj = (3, 50, 12) if quick else (25, 60, 14)
+    per, depth, nj = (5, 50, 14) if quick else (25, 60, 14)
     groups = [("Trace_Bridge.tla", "Trace_Bridge_C05.cfg", bc.jobs("c05", seed + 1, per, depth, nj))]
     return verif.run_stateful_check("C05", tier, seed, work, mc_list=mc, groups=groups, key_fn=bc.key,
                                     level="model_checking", assumptions=bc.ASSUME, rule=RULE)
